@@ -13,7 +13,7 @@ RULE = (
     "Non-trivial = at least one registration ended by a cause other than shutdown, or triggers overlapped an unacknowledged notification; distinct = distinct tuples of (registration type, reaction script, special event, trigger gap classes)"
 )
 ASSUMPTIONS = ["default TransportTuning", "the test resource derives from aiocoap.resource.ObservableResource and wraps the cancellation callback it hands to accept()"]
-REQUIRED_MONITORS = {"explicit_final_during_render": 20, "token_and_rising_observe": 300, "latest_state": 60, "end_cause": 300, "nothing_after_end": 300, "callback_once": 300, "count_returns": 200, "mixed_reliability_notification": 300}
+REQUIRED_MONITORS = {"explicit_final_during_render": 20, "token_and_rising_observe": 300, "latest_state": 60, "end_cause": 300, "nothing_after_end": 300, "callback_once": 300, "count_returns": 200, "mixed_reliability_notification": 300, "slow_add_observation": 40}
 
 KNOWN_KEYS = ("rst-to-non-notification-ignored", "queued-notification-sent-after-end")
 
@@ -39,7 +39,7 @@ def gen(r):
         t_reg = r.choice([0.0, 0.0, 0.2, 3.0])
         # what the registration's FIRST rendering does: nothing special, take 1.5 s, fail (renderable error, plain
         # exception, unsuccessful response) at once or after 1.5 s
-        first = r.choice(["normal"] * 6 + ["slow", "slow", "raise", "raise-plain", "error", "slow-raise"])
+        first = r.choice(["normal"] * 6 + ["slow", "slow", "raise", "raise-plain", "error", "slow-raise", "slow-add", "slow-add"])
         special_at = r.uniform(0.5, 12.0)
         if first.startswith("slow") and special and r.random() < 0.7:
             special_at = t_reg + r.choice([0.3, 0.7, 1.2])  # the special event lands inside the first rendering
@@ -131,6 +131,12 @@ def run_history(h, seed, rep, case):
                 self._keep = getattr(self, "_keep", []) + [request]
                 rlog.append({"ev": "register", "rid": rid, "t": loop.time(), "seq": len(net.log), "remote": (request.remote.sockaddr[0], request.remote.sockaddr[1]), "token": bytes(request.token), "count_before": len(self._observations)})
                 await super().add_observation(request, Proxy(serverobservation, rid))
+                idx = bytes(request.token)[0] - 0xA0 if request.token else -1
+                if 0 <= idx < len(h["observers"]) and h["observers"][idx].get("first") == "slow-add" and rid not in self.first_done:
+                    # the registration is accepted (counted) and the resource then takes its time over setting something up
+                    # for it before the first rendering
+                    rep.monitor("slow_add_observation")
+                    await asyncio.sleep(1.5)
 
             def update_observation_count(self, newcount):
                 rlog.append({"ev": "count", "n": newcount, "t": loop.time(), "seq": len(net.log)})
@@ -144,7 +150,7 @@ def run_history(h, seed, rep, case):
                     idx = bytes(request.token)[0] - 0xA0 if request.token else -1
                     fb = h["observers"][idx].get("first", "normal") if 0 <= idx < len(h["observers"]) else "normal"
                     rep.count("first_render_" + fb)
-                    if fb.startswith("slow"):
+                    if fb in ("slow", "slow-raise"):
                         await asyncio.sleep(1.5)
                     if fb in ("raise", "raise-plain", "error", "slow-raise"):
                         rlog.append({"ev": "first-fail", "rid": rid, "t": loop.time(), "seq": len(net.log)})
